@@ -410,11 +410,15 @@ func (fr *frame) visitInstr(instr ssa.Instruction) continuation {
 		idx := fr.get(instr.Index)
 		switch x := x.(type) {
 		case array:
-			fr.env[instr] = copyValue(x[fr.checkIndex(idx, instr.Index.Type(), len(x))])
+			fr.env[instr] = norm(copyValue(fr.indexRead(x, idx, instr.Index.Type())), instr.Type())
 		case string:
-			fr.env[instr] = x[fr.checkIndex(idx, instr.Index.Type(), len(x))]
+			if _, sym := idx.(*Term); sym {
+				fr.env[instr] = norm(fr.indexRead(strCells(x), idx, instr.Index.Type()), instr.Type())
+			} else {
+				fr.env[instr] = x[fr.checkIndex(idx, instr.Index.Type(), len(x))]
+			}
 		case *symStr:
-			fr.env[instr] = x.b[fr.checkIndex(idx, instr.Index.Type(), len(x.b))]
+			fr.env[instr] = norm(fr.indexRead(x.b, idx, instr.Index.Type()), instr.Type())
 		default:
 			panic(fmt.Sprintf("unexpected x type in Index: %T", x))
 		}
